@@ -1,5 +1,6 @@
 import KoordVerif.Proofs.C03Ext
 import KoordVerif.Proofs.C03Ext3
+import KoordVerif.Proofs.C03Ext5
 import KoordVerif.Props.C02
 /-
 C03 — property theorems (DESIGN.md §4 C03) over the model `Model/C03.lean`.
@@ -1768,6 +1769,36 @@ theorem mask_shift_counterexample :
     ((ex4At 11).st.quotas.map fun g => (g.name, g.used 0, g.used 1)) = [(0, 1, 0), (1, 1, 0)] ∧
     ((ex4At 15).st.quotas.map fun g => (g.name, g.max 1, g.used 0, g.used 1)) = [(0, none, 2, 2), (1, some 2, 2, 2)] ∧
     ((ex4At 15).st.pods.map fun p => (p.id, p.assigned, val p.req 1)) = [(1, false, 2), (2, true, 2), (3, true, 2)] := by
+  decide
+
+/-! ### §9 the alpha feature gate `ElasticQuotaGuaranteeUsage` (fifth extension round)
+The gate reaches the model at one point: `NewQuotaInfoFromQuota` reads every quota object with allow-lent = false
+(`declaredLent`, `quotaUpdateGated`; Proofs/C03Ext5: `quotaUpdateGated_on` - a gated history is a history of
+`quotaUpdate` with allow-lent = false, so every theorem above covers it).  `PreFilter` does not consult the gate
+(Ties: `tie_guarantee_gate`): `attempt` has no gate parameter, and `admit_iff` gives the non-preemptible bound as the
+DECLARED min.  What the gate adds inside the manager (Allocated, Guaranteed = max(Allocated, min), their way into the
+runtime calculator) only feeds the runtime list, which is an input here. -/
+
+/-- gate on: an object that differs from what the manager holds (allow-lent = false, as every object read under the
+    gate leaves it) in nothing but the allow-lent label is DROPPED - no tree reset. -/
+theorem gated_lent_flip_dropped (s : State) (q : Quota) (l : Bool)
+    (hq : findQ s.quotas q.name = some q) (hl : q.lent = false) :
+    quotaUpdateGated true s q.name q.parent q.isParent l q.max q.min = s := by
+  simp [quotaUpdateGated, declaredLent, quotaUpdate, hq, isQuotaChange, hl, rlEq_self]
+
+/-- gate off: the same object with the label flipped IS a change (it goes on to `quotaSet` = tree reset). -/
+theorem lent_flip_is_change (D : Nat) (q : Quota) :
+    isQuotaChange D q q.parent q.isParent (!q.lent) q.max q.min = true := by
+  cases h : q.lent <;> simp [isQuotaChange, h]
+
+/-- what the manager shows: used 8 (> min 2), non-preemptible used 2 = min; the second non-preemptible pod is rejected
+    under every switch combination (non-preemptible used 2 + 2 > min 2, although used 8 + 2 <= max 12 - and although
+    max(used, min) = 8 would leave room: the bound is the declared min, not the "guaranteed" amount); a preemptible
+    pod of the same size is admitted. -/
+theorem guarantee_usage_scenario :
+    (findQ guState.quotas 1).map (fun q => (q.lent, q.used 0, q.npUsed 0, q.min 0, q.max 0)) = some (false, 8, 2, some 2, some 12) ∧
+    (∀ rt cp : Bool, (findP guState.pods 5).map (attempt guState ⟨rt, cp⟩) = some .unschedulable) ∧
+    (∀ rt cp : Bool, (findP guState.pods 6).map (attempt guState ⟨rt, cp⟩) = some .success) := by
   decide
 
 end KoordVerif.C03
